@@ -75,22 +75,17 @@ func (l *Lexer) scanInLine() Token {
 		return l.scanComment()
 	case ch == '(':
 		if l.looksLikeVirtualAccount() {
-			l.advance()
-			return l.makeToken(TokenLParen, "(")
+			return l.scanSingle(TokenLParen, "(")
 		}
 		return l.scanCode()
 	case ch == ')':
-		l.advance()
-		return l.makeToken(TokenRParen, ")")
+		return l.scanSingle(TokenRParen, ")")
 	case ch == '[':
-		l.advance()
-		return l.makeToken(TokenLBracket, "[")
+		return l.scanSingle(TokenLBracket, "[")
 	case ch == ']':
-		l.advance()
-		return l.makeToken(TokenRBracket, "]")
+		return l.scanSingle(TokenRBracket, "]")
 	case ch == '|':
-		l.advance()
-		return l.makeToken(TokenPipe, "|")
+		return l.scanSingle(TokenPipe, "|")
 	case ch == '@':
 		return l.scanAt()
 	case ch == '=':
@@ -119,6 +114,13 @@ func (l *Lexer) scanInLine() Token {
 	default:
 		return l.scanText()
 	}
+}
+
+// scanSingle consumes a one-character token; the token starts AT that character.
+func (l *Lexer) scanSingle(typ TokenType, value string) Token {
+	startPos := l.position()
+	l.advance()
+	return Token{Type: typ, Value: value, Pos: startPos, End: l.position()}
 }
 
 func (l *Lexer) scanDate() Token {
